@@ -1467,6 +1467,8 @@ theorem wrun_side_a : ∀ (ops : List WOp) (w : World), ∃ opsA : List Op, (wru
       · exact ⟨r, rfl⟩
       · rename_i x _
         exact ⟨.park x :: r, rfl⟩
+    | lostA => exact ⟨.lost :: r, by simpa [wrun, run, wstep] using hr⟩
+    | lostB => exact ⟨r, by simpa [wrun, wstep] using hr⟩
 
 theorem gotRecord_fresh (s : Side) (seq : Nat) (handle : Side → Res)
     (hseq : ∀ h, s.highestAcked = some h → h < seq) :
@@ -1540,6 +1542,12 @@ theorem wstep_inv {la lb : Bool} {w : World} (h : WInv la lb w) (o : WOp) : WInv
     · rename_i x _
       have ev := step_evo h1 (.park x)
       exact ⟨ev.wf, h2, ev.ids h3, h4, ev.leader.trans h5, h6⟩
+  | lostA =>
+    have ev := step_evo h1 .lost
+    exact ⟨ev.wf, h2, ev.ids h3, h4, ev.leader.trans h5, h6⟩
+  | lostB =>
+    have ev := step_evo h2 .lost
+    exact ⟨h1, ev.wf, h3, ev.ids h4, h5, ev.leader.trans h6⟩
 
 theorem wrun_inv {la lb : Bool} : ∀ (ops : List WOp) (w : World), WInv la lb w → WInv la lb (wrun w ops)
   | [], _, h => h
